@@ -95,7 +95,7 @@ def h_file_window(cname, nbytes, via, lsb0=False):
                 elif via == 'bytes':
                     r = call(lambda: cls(bytes=rawbits.tobytes(), length=ln, offset=off))
                 else:
-                    hdl = F.open_handle(K, fn)
+                    hdl = F.open_handle(K, fn, 'r+b' if via == 'handle-r+b' else 'rb')
                     try:
                         r = call(lambda: cls(hdl, length=ln, offset=off))
                     finally:
@@ -263,7 +263,7 @@ def conditions(tier):
                 add(f'C17.tofile[{c},n={n},chunk={ch},lsb0]', h_tofile(c, n, ch, True), f'all {n}-bit contents; chunk size {ch} bits via the guarded hook; options.lsb0 set', n=n)
     for c in (['Bits'] if q else ['Bits', 'BitArray', 'ConstBitStream', 'BitStream']):
         for nb in ([0, 1, 2] if q else [0, 1, 2, 3]):
-            for via in ('filename', 'handle'):
+            for via in ('filename', 'handle') + (('handle-r+b',) if nb == 2 else ()):
                 add(f'C17.file-window[{c},{via},bytes={nb}]', h_file_window(c, nb, via), f'all {nb}-byte files x offset,length in [-2,{8 * nb + 2}] or None', setup=F.install_fakes, nbytes=nb)
         for data in ([b'\xa5\x3c'] if q else [b'', b'\xa5', b'\xa5\x3c', b'\x01\x02\x03']):
             add(f'C17.bytesio-window[{c},{data.hex() or "empty"}]', h_bytesio(c, data), f'BytesIO({data!r}) x offset,length in [-2,{8 * len(data) + 2}] or None')
